@@ -325,14 +325,30 @@ def o4_assembly(ctx):
 
     def kids(sc):
         return [c for c in sc.children if c.kind == "function"]
-    outer = kids(asm)
-    if len(outer) != 1 or len(kids(outer[0])) != 1:
+    def vmapped(sc):
+        """the nested function of `sc` that is mapped (jax.vmap(f, ...)(...)) by a statement of sc itself"""
+        names = set()
+        for st_ in sc.node.body:
+            for c_ in ast.walk(st_) if not isinstance(st_, ast.FunctionDef) else []:
+                if isinstance(c_, ast.Call) and (dotted(c_.func) or "").split(".")[-1] == "vmap" and c_.args and isinstance(c_.args[0], ast.Name):
+                    names.add(c_.args[0].id)
+        return [k for k in kids(sc) if k.name in names]
+    outer = vmapped(asm)
+    if len(outer) != 1 or len(vmapped(outer[0])) != 1:
         ctx.undecided(rule, asm, None, construct="structure", detail="nested per-segment / per-pair functions not found")
         return
-    per_seg, per_pair = outer[0], kids(outer[0])[0]
+    per_seg, per_pair = outer[0], vmapped(outer[0])[0]
 
     def weight_tag(call):
-        lam = [a for a in call.args if isinstance(a, ast.Lambda)]
+        from .common import defs_to_lambdas
+        cand = list(call.args) + [k.value for k in call.keywords]
+        lam = []
+        for a in cand:
+            for host in (per_pair, per_seg, asm):
+                b = defs_to_lambdas(a, host)
+                if isinstance(b, ast.Lambda):
+                    lam.append(b)
+                    break
         if not lam:
             return None
         lam = lam[-1]
